@@ -183,6 +183,79 @@ def gen_groups(rng, s, n_groups):
     return groups
 
 
+INTROSPECTION_SDL = """
+directive @hide on FIELD_DEFINITION | ARGUMENT_DEFINITION | ENUM_VALUE | INPUT_FIELD_DEFINITION
+enum Level { LOW HIGH @hide }
+input Opts { limit: Int secretKey: String @hide }
+type Thing { open: Int secret: Int @hide search(q: String, internalScore: Int @hide, o: Opts): Int level: Level }
+type Query { thing: Thing }
+"""
+INTROSPECTION_REQUESTS = [
+    '{ __type(name: "Thing") { fields(includeDeprecated: true) { name args { name } } } }',
+    '{ __type(name: "Thing") { fields { name } } }',
+    '{ __type(name: "Level") { enumValues(includeDeprecated: true) { name } } }',
+    '{ __type(name: "Opts") { inputFields { name } } }',
+    '{ __schema { types { name fields(includeDeprecated: true) { name args { name } } } } }',
+]
+
+
+async def introspection_context_scenario(rng):
+    """a directive whose on_introspection outcome depends on the request's context: what one request's context hides
+    must stay visible to the requests of another context, whatever ran before or runs at the same time"""
+    from tartiflette import create_engine, Directive, Resolver
+    problems = []
+
+    def register(name):
+        @Directive("hide", schema_name=name)
+        class Hide:                                   # pylint: disable=unused-variable
+            async def on_introspection(self, directive_args, next_directive, introspected_element, ctx, info):
+                await asyncio.sleep(0)
+                if ctx.get("role") == "admin":
+                    return await next_directive(introspected_element, ctx, info)
+                return None
+
+        @Resolver("Query.thing", schema_name=name)
+        async def thing(p, a, c, i):                  # pylint: disable=unused-variable
+            return {"open": 1, "secret": 2, "search": 3, "level": "LOW"}
+
+    async def fresh():
+        name = fresh_schema_name("c15intro")
+        register(name)
+        return await create_engine(INTROSPECTION_SDL, schema_name=name)
+
+    reqs = [(q, role) for q in INTROSPECTION_REQUESTS for role in ("guest", "admin")]
+    solo = {}
+    for q, role in reqs:
+        solo[(q, role)] = await (await fresh()).execute(q, context={"role": role})
+    if all(json.dumps(solo[(q, "guest")], sort_keys=True) == json.dumps(solo[(q, "admin")], sort_keys=True) for q in INTROSPECTION_REQUESTS):
+        problems.append("the context-dependent directive hides nothing (scenario is vacuous)")
+    shared = await fresh()
+    order = list(reqs)
+    for rnd in range(3):
+        rng.shuffle(order)
+        for q, role in order:                                   # one after the other
+            r = await shared.execute(q, context={"role": role})
+            if json.dumps(r, sort_keys=True) != json.dumps(solo[(q, role)], sort_keys=True):
+                problems.append("sequential round %d: %s as %s answered %s, alone on a fresh engine %s" % (
+                    rnd, q, role, json.dumps(r)[:300], json.dumps(solo[(q, role)])[:300]))
+        rs = await asyncio.gather(*[shared.execute(q, context={"role": role}) for q, role in order])     # all in flight
+        for (q, role), r in zip(order, rs):
+            if json.dumps(r, sort_keys=True) != json.dumps(solo[(q, role)], sort_keys=True):
+                problems.append("concurrent round %d: %s as %s answered %s, alone on a fresh engine %s" % (
+                    rnd, q, role, json.dumps(r)[:300], json.dumps(solo[(q, role)])[:300]))
+
+        async def late(q, role, k):                                                                     # overlapping
+            for _ in range(k):
+                await asyncio.sleep(0)
+            return await shared.execute(q, context={"role": role})
+        rs = await asyncio.gather(*[late(q, role, 3 * n) for n, (q, role) in enumerate(order)])
+        for (q, role), r in zip(order, rs):
+            if json.dumps(r, sort_keys=True) != json.dumps(solo[(q, role)], sort_keys=True):
+                problems.append("overlapping round %d: %s as %s answered %s, alone on a fresh engine %s" % (
+                    rnd, q, role, json.dumps(r)[:300], json.dumps(solo[(q, role)])[:300]))
+    return problems, len(reqs) * 9
+
+
 async def explore(s, groups, rng, strategies):
     shared = await sched.build_gated_engine(s, fresh_schema_name("c15"), None, None, CFG)
     out = []
@@ -277,6 +350,12 @@ def main(tier_, replay=None):
             continue
         for i in (common.parse_Z_list(so, "sched_mismatch") or []):
             mism.append((s,) + items[i])
+    intro_problems, intro_n = asyncio.run(introspection_context_scenario(rng))
+    total_requests += intro_n
+    for pr in intro_problems[:3]:
+        rep.violation({"property": "C15", "kind": "the context of one request changes what another request is answered "
+                       "(introspection directive depending on the context)", "sdl": INTROSPECTION_SDL, "problem": pr})
+    viol_extra = len(intro_problems)
     for s, res, why in viol[:5]:
         rep.violation({"property": "C15", "kind": why[:6], "sdl": gen.schema_sdl(s),
                        "requests": [{"query": c["query"], "variables": c["variables"], "operation_name": c.get("opname"),
@@ -286,7 +365,7 @@ def main(tier_, replay=None):
                        "strategy": res["strategy"],
                        "responses_in_flight": [repr(r["response"])[:800] for r in res["runs"]],
                        "responses_alone_fresh_engine": [repr(r["response"])[:800] for r in res["solo"]]})
-    if not viol:
+    if not viol and not viol_extra:
         if not proofs_ok:
             rep.violation({"property": "C15", "what": "proof obligation no longer checks", "file": b.get("failed_file"),
                            "theorem": b.get("failed_lemma"), "gate": gate, "log_tail": b["log"][-1500:]}, no_input=True)
